@@ -372,6 +372,92 @@ func (c *c11Reg) httpFuzz() {
 	c.sender.Fail = false
 }
 
+// remoteAddrs: getRemoteAddr on requests built by hand (any header bytes, any number of instances, peers
+// that are and are not the local host), compared with the model; what net.ParseIP makes of a candidate is
+// handed to the model as a table
+func (c *c11Reg) remoteAddrs() {
+	vals := []string{"", " ", ",", ", ,", ",,", "\t", " , ", "1.2.3.4", "1.2.3.4, 5.6.7.8", "garbage", "::1", "2001:db8::1, 127.0.0.1", "1.2.3.4,",
+		",1.2.3.4", "a,b,c,d,e", "1.2.3.4 , 5.6.7.8 ,", "[::1]:80, 10.0.0.1:80", "\x00", "\xff\xfe,1.1.1.1", " 9.9.9.9 ", "9.9.9.9\n", "1.2.3.4,,", ",,1.2.3.4",
+		strings.Repeat(",", 40), "::ffff:1.2.3.4,fe80::1%eth0", "\u00a01.2.3.4\u00a0, 5.5.5.5\u2003"}
+	peers := []string{"10.1.2.3:999", "127.0.0.1:5", "[::1]:80", "nonsense", "", "127.0.0.1", "[::ffff:127.0.0.1]:1"}
+	one := func(peer string, hdr []string) {
+		req := httptest.NewRequest("POST", "/register", nil)
+		req.RemoteAddr = peer
+		if hdr != nil {
+			req.Header["X-Forwarded-For"] = hdr
+		}
+		remote, lb := "nil", false
+		if ip := parseIP(peer); ip != nil {
+			remote = vlib.Hex([]byte(ip.String()))
+			lb = ip.Equal(net.ParseIP("127.0.0.1")) || ip.Equal(net.ParseIP("::1"))
+		}
+		values := "N"
+		tb := map[string]bool{}
+		var table []string
+		if hdr != nil {
+			hv := make([]string, len(hdr))
+			for i, v := range hdr {
+				hv[i] = vlib.Hex([]byte(v))
+				for _, piece := range strings.Split(v, ",") {
+					k := "ip:" + vlib.Hex([]byte(piece))
+					if tb[k] {
+						continue
+					}
+					tb[k] = true
+					if ip := net.ParseIP(strings.TrimSpace(piece)); ip != nil {
+						table = append(table, k+"="+vlib.Hex([]byte(ip.String())))
+					} else {
+						table = append(table, k+"=FAIL")
+					}
+				}
+			}
+			values = strings.Join(hv, ",")
+		}
+		line := fmt.Sprintf("ingress|remoteaddr|%s|%s|%s|%s", remote, vlib.B(lb), values, vlib.SortedJoin(table, ";"))
+		ans := "ip nil"
+		res := vlibc11.Guard(func() {
+			if ip := getRemoteAddr(req); ip != nil {
+				ans = "ip " + vlib.Hex([]byte(ip.String()))
+			} else {
+				ans = "ip nil"
+			}
+		})
+		c.out.Checked()
+		if res.Panic != "" {
+			ans = "panic " + res.Panic
+			if vlibc11.Class(res.Panic) == "index-out-of-range" {
+				ans = "panic index out of range"
+			}
+		} else if res.Hang {
+			ans = "hang"
+		}
+		c.out.Case(line, ans, hdr != nil)
+		c.out.Count("remoteaddr:" + strings.Fields(ans)[0])
+		if res.Bad() {
+			c.fail("http-remote-addr", res, line)
+		}
+	}
+	for _, peer := range peers {
+		one(peer, nil)
+		for _, v := range vals {
+			one(peer, []string{v})
+			one(peer, []string{"8.8.8.8", v})
+			one(peer, []string{v, ""})
+		}
+	}
+	for i := 0; i < vlib.Budget(1500, 30000); i++ {
+		var hdr []string
+		for k := c.r.Intn(3); k >= 0; k-- {
+			var sb strings.Builder
+			for j := c.r.Intn(5); j > 0; j-- {
+				sb.WriteString([]string{",", " ", "1.2.3.4", "::1", "x", "\t", ", ", "10.0.0.", "7", string(c.r.Bytes(1))}[c.r.Intn(10)])
+			}
+			hdr = append(hdr, sb.String())
+		}
+		one(peers[c.r.Intn(len(peers))], hdr)
+	}
+}
+
 // scripted registrar for the decision table of the handlers
 type c11Scripted struct{ proc string }
 
@@ -1081,6 +1167,7 @@ func TestVerifC11Registrar(t *testing.T) {
 	}
 	c.httpFuzz()
 	c.httpTable()
+	c.remoteAddrs()
 	c.processor()
 	c.parsers()
 	c.dnsDirect()
